@@ -253,6 +253,11 @@ def _write_evidence(mod, prop, tier, seed, m, wall, verdict, new, listed,
         cov['seen_' + name] = {'count': len(items),
                                'items': [canon.brief(x, 120)
                                          for x in items[:80]]}
+    try:
+        from .gen import magic
+        cov['live_dictionary'] = magic.pool().summary()
+    except Exception as e:      # pragma: no cover
+        cov['live_dictionary'] = {'error': repr(e)}
     if hasattr(mod, 'coverage_extra'):
         cov.update(mod.coverage_extra(m, tier))
     if inconclusive:
